@@ -3733,17 +3733,19 @@ class Fused(Blockwise):
         graph = {self._name: (self.exprs[0]._name, index)}
         for _expr in self.exprs:
             if isinstance(_expr, Fused):
-                graph.update(_expr._subgraph(index))
-                graph[(_expr._name, index)] = _expr._name
+                # A nested group that is being broadcasted only has partition 0
+                i = 0 if self._broadcast_dep(_expr) else index
+                graph.update(_expr._subgraph(i))
+                graph[(_expr._name, i)] = _expr._name
                 # The dependencies of a nested group are tasks or dependencies
                 # of this group: point the keys the nested group knows them by
                 # to their current keys, which this graph defines
                 for original, dep in zip(
                     _expr._original_dependencies, _expr.dependencies()
                 ):
-                    key = _expr._blockwise_arg(dep, index)
-                    if _expr._blockwise_arg(original, index) != key:
-                        graph[_expr._blockwise_arg(original, index)] = key
+                    key = _expr._blockwise_arg(dep, i)
+                    if _expr._blockwise_arg(original, i) != key:
+                        graph[_expr._blockwise_arg(original, i)] = key
             elif self._broadcast_dep(_expr):
                 # When _expr is being broadcasted, we only
                 # want to define a fused task for index 0
